@@ -279,3 +279,41 @@ T('C05', 'twin-mirror-arms-swapped-order', MG,
 T('C05', 'twin-extra-log-in-both-mirror-arms', MG,
   '                    decisions.local(path, p0, p1)\n                elif p1[0].op == DiffOp.REMOVERANGE and is_transient:\n                    # Patch contains only transient changes, pick deletion\n                    decisions.remote(path, p0, p1)',
   '                    nbdime.log.debug("transient")\n                    decisions.local(path, p0, p1)\n                elif p1[0].op == DiffOp.REMOVERANGE and is_transient:\n                    nbdime.log.debug("transient")\n                    decisions.remote(path, p0, p1)')
+
+# ------------------------------------------------------------------------------------------ C09
+SCH = 'nbdime/merge_format.schema.json'
+DSCH = 'nbdime/diff_format.schema.json'
+M('C09', 'schema-drops-take-max', SCH, '            "custom",\n            "take_max"\n', '            "custom"\n', 'R09.1', 'take_max')
+M('C09', 'emit-clear-parent', DEC, '                action = "clear"\n', '                action = "clear_parent"\n', 'R09.1', 'clear_parent')
+M('C09', 'rename-either', DEC, '            action="either",', '            action="agreed",', 'R09.1', 'agreed')
+M('C09', 'extra-note-field', DEC, '            custom_diff=custom_diff,\n            strategy=strategy\n            )',
+  '            custom_diff=custom_diff,\n            strategy=strategy,\n            note="custom"\n            )', 'R09.2')
+M('C09', 'validated-keeps-strategy', DEC, '            if "strategy" in d:\n                del d["strategy"]', '            if "strategy" in d:\n                pass', 'R09.2')
+M('C09', 'producer-bypasses-validated', MG, '    return decisions.validated(base)', '    return decisions.decisions', 'R09.2')
+M('C09', 'validated-not-reversed', DEC, 'return sorted(self.decisions, key=_sort_key, reverse=True)', 'return sorted(self.decisions, key=_sort_key)', 'R09.3')
+M('C09', 'producer-reorders-after-sort', MNB, '    return decisions\n\n\ndef merge_notebooks', '    decisions.sort(key=lambda d: d.conflict)\n    return decisions\n\n\ndef merge_notebooks', 'R09.3')
+M('C09', 'apply-sorts-decisions', DEC, '    for md in decisions:\n        path, line = split_string_path(merged, md.common_path)',
+  '    for md in sorted(decisions, key=lambda d: len(d.common_path)):\n        path, line = split_string_path(merged, md.common_path)', 'R09.3')
+M('C09', 'op-addrange-extra-field', DF, 'return DiffEntry(op=DiffOp.ADDRANGE, key=key, valuelist=valuelist)', 'return DiffEntry(op=DiffOp.ADDRANGE, key=key, valuelist=valuelist, source=None)', 'R09.4')
+M('C09', 'hand-built-entry', STR, '            custom_diff = [op_removerange(key, 1)]', '            custom_diff = [DiffEntry(op="removerange", key=key, length=1, why="conflict")]', 'R09.4',
+  edits=[(STR, 'from ..diff_format import (\n    DiffOp, ParentDeleted,', 'from ..diff_format import (\n    DiffOp, ParentDeleted, DiffEntry,')])
+T('C09', 'twin-validated-pop', DEC, '            if "strategy" in d:\n                del d["strategy"]', '            d.pop("strategy", None)')
+T('C09', 'twin-producer-temp-name', MG, '    return decisions.validated(base)', '    result = decisions.validated(base)\n    return result')
+
+# ------------------------------------------------------------------------------------------ C15
+TSDEC = 'packages/nbdime/src/merge/decisions.ts'
+TSUTIL = 'packages/nbdime/src/common/util.ts'
+TSGEN = 'packages/nbdime/src/patch/generic.ts'
+TSDE = 'packages/nbdime/src/diff/diffentries.ts'
+TSDU = 'packages/nbdime/src/diff/util.ts'
+M('C15', 'ts-whitelist-drops-either', TSDEC, "      'clear_parent',\n      'either',\n    ])", "      'clear_parent',\n    ])", 'R15.1')
+M('C15', 'python-only-action', DEC, '                action = "clear"\n', '                action = "clear_value"\n', 'R15.1', 'clear_value')
+M('C15', 'ts-resolve-loses-custom-arm', TSDEC, "  } else if (a === 'custom') {", "  } else if (a === 'customized') {", 'R15.1')
+M('C15', 'ts-patch-sequence-loses-removerange', TSGEN, "    } else if (e.op === 'removerange') {\n      // Delete a number of values by skipping", "    } else if (e.op === 'remove_range') {\n      // Delete a number of values by skipping", 'R15.2')
+M('C15', 'ts-diffop-union-loses-replace', TSDE, "  | 'replace'\n  | 'patch'", "  | 'patch'", 'R15.2')
+M('C15', 'ts-regex-changed', TSUTIL, 'multiline.match(/^.*(\\r\\n|\\r|\\n|$)/gm)', 'multiline.match(/^.*(\\r\\n|\\n|$)/gm)', 'R15.3')
+M('C15', 'python-site-splits-on-newline-only', 'nbdime/diffing/sequences.py', '    lines_a = a.splitlines(True)\n', "    lines_a = a.split('\\n')\n", 'R15.3')
+M('C15', 'ts-flatten-without-sort', TSDU, "  return sortByKey(flattened, 'key');", '  return flattened;', 'R15.4')
+M('C15', 'py-flatten-without-sort', DU, '    combined.sort(key=lambda x: x.key)\n', '', 'R15.4')
+T('C15', 'twin-ts-whitelist-reordered', TSDEC, "      'base',\n      'local',\n      'remote',\n      'local_then_remote',", "      'local',\n      'base',\n      'remote',\n      'local_then_remote',")
+T('C15', 'twin-ts-comment-with-quotes', TSDEC, "function validateAction(action: string): Action {", "// validates the 'action' field; see \"Action\"\nfunction validateAction(action: string): Action {")
